@@ -41,7 +41,10 @@ Record ev_display (ev : evaluator) : Prop := {
   ev_reg : forall r, ev (id_reg r) = (id_reg r, SComplete);
   ev_neg : forall p, (Zpos p <= 2147483648)%Z -> ev (ANeg (AConst (Zpos p))) = (AConst (Zneg p), SComplete);
   ev_label : forall t, t < 4294967296 -> ev (label_arg t) = (AConst (Z.of_N t), SComplete);
-  ev_mem_imm : forall a v, (0 <= v)%Z -> ev (mem_arg a (AConst v)) = (mem_arg a (AConst v), SComplete);
+  (* `[a + 0]` may be simplified to `[a]` (the real evaluator drops the neutral element) *)
+  ev_mem_imm : forall a v, (0 <= v)%Z ->
+    ev (mem_arg a (AConst v)) = (mem_arg a (AConst v), SComplete) \/
+    (v = 0%Z /\ ev (mem_arg a (AConst v)) = (AAddr (id_reg a), SComplete));
   ev_mem_reg : forall a o, ev (mem_arg a (id_reg o)) = (mem_arg a (id_reg o), SComplete) }.
 
 Section Display.
@@ -203,8 +206,9 @@ Proof.
   intros H W NN. unfold c_address, eval_at. cbn [a_args a_done]. rewrite H. cbn [Nat.leb].
   destruct x as [v|o]; cbn [immreg_arg immreg_ok] in *.
   - assert (Hv := NN v eq_refl). assert (E : num_arg v = AConst v) by (destruct v; try reflexivity; lia).
-    rewrite E. rewrite (ev_mem_imm ev EV a v Hv). cbn [bind mem_arg addr_off id_reg].
-    rewrite (i32_of_ok v W), regl_reg_name. eexists. reflexivity.
+    rewrite E. destruct (ev_mem_imm ev EV a v Hv) as [Em|[V0 Em]]; rewrite Em; cbn [bind mem_arg addr_off id_reg].
+    + rewrite (i32_of_ok v W), regl_reg_name. eexists. reflexivity.
+    + subst v. rewrite regl_reg_name. eexists. reflexivity.
   - rewrite (ev_mem_reg ev EV a o). cbn [bind mem_arg addr_off id_reg]. rewrite !regl_reg_name. eexists. reflexivity.
 Qed.
 
@@ -215,8 +219,9 @@ Proof.
   intros H W NN. unfold c_addr_offset, eval_at. cbn [a_args a_done]. rewrite H. cbn [Nat.leb].
   destruct x as [v|o]; cbn [immreg_arg immreg_ok] in *.
   - assert (Hv := NN v eq_refl). assert (E : num_arg v = AConst v) by (destruct v; try reflexivity; lia).
-    rewrite E. rewrite (ev_mem_imm ev EV a v Hv). cbn [bind mem_arg addr_off id_reg].
-    rewrite (i32_of_ok v W), regl_reg_name. eexists. reflexivity.
+    rewrite E. destruct (ev_mem_imm ev EV a v Hv) as [Em|[V0 Em]]; rewrite Em; cbn [bind mem_arg addr_off id_reg].
+    + rewrite (i32_of_ok v W), regl_reg_name. eexists. reflexivity.
+    + subst v. rewrite regl_reg_name. eexists. reflexivity.
   - rewrite (ev_mem_reg ev EV a o). cbn [bind mem_arg addr_off id_reg]. rewrite !regl_reg_name. eexists. reflexivity.
 Qed.
 
